@@ -464,6 +464,26 @@ def eval_element(case):
         return {'v': v, 'nt': tuple(case), 'out': 'raise'}
     if got != want:
         v.append((f'element-get-after-set/{kind}/{p}', f'set {want}, read back {got} {ctx}'))
+    # history: what a read returned belongs to the reader - editing it in place (without writing it back) changes neither the
+    # next read of this element nor the model
+    try:
+        obj = element(t, kind).get_property(p)
+        import enum as _enum
+        if hasattr(obj, '__dict__') and not isinstance(obj, _enum.Enum) and type(obj).__module__.startswith('fim.'):
+            for f2, val2 in list(obj.__dict__.items()):
+                if isinstance(val2, list):
+                    val2.append(val2[0] if val2 else 'x')
+                elif isinstance(val2, bool):
+                    obj.__dict__[f2] = not val2
+                elif isinstance(val2, (int, float)):
+                    obj.__dict__[f2] = val2 + 1
+                elif isinstance(val2, str):
+                    obj.__dict__[f2] = val2 + 'x'
+        again = canon_field(element(t, kind).get_property(p))
+        if again != want:
+            v.append((f'element-read-not-repeatable/{kind}/{p}', f'after editing the object a read returned, the next read gives {again}, stored was {want} {ctx}'))
+    except Exception as ex:
+        v.append((f'element-read-not-repeatable/{kind}/{p}', f'{type(ex).__name__}: {ex} {ctx}'))
     # the graph stays serializable after any set
     try:
         t.serialize()
